@@ -39,16 +39,16 @@ if [ "${VERIF_AUTOYIELD:-1}" = "1" ]; then
     rsync -a --delete --exclude .git "$REPO/" "$SCRATCH/" || exit 1
     "$VERIF_DIR/bin/autoyield.$$" "$SCRATCH" || exit 1
     sed "s#=> /repo#=> $SCRATCH#" go.mod > "$MODF"; cp go.sum "${MODF%.mod}.sum"
-    go build -modfile="$MODF" -tags verif -o "$BIN" ./cmd/vsim || exit 1
+    go build -trimpath -modfile="$MODF" -tags verif -o "$BIN" ./cmd/vsim || exit 1
     if [ "$WANT_RACE" = "1" ]; then
-      go build -race $NORACE_HARNESS -modfile="$MODF" -tags verif -o "$BIN.race" ./cmd/vsim || exit 1
+      go build -trimpath -race $NORACE_HARNESS -modfile="$MODF" -tags verif -o "$BIN.race" ./cmd/vsim || exit 1
     fi
     rm -rf "$SCRATCH" "$MODF" "${MODF%.mod}.sum"
   ) 9>"$VERIF_DIR/bin/.buildlock" >"$LOG" 2>&1 || fail
 else
-  go build -tags verif -o "$BIN" ./cmd/vsim >"$LOG" 2>&1 || fail
+  go build -trimpath -tags verif -o "$BIN" ./cmd/vsim >"$LOG" 2>&1 || fail
   if [ "$WANT_RACE" = "1" ]; then
-    go build -race $NORACE_HARNESS -tags verif -o "$BIN.race" ./cmd/vsim >"$LOG" 2>&1 || fail
+    go build -trimpath -race $NORACE_HARNESS -tags verif -o "$BIN.race" ./cmd/vsim >"$LOG" 2>&1 || fail
   fi
 fi
 if [ "$WANT_RACE" = "1" ]; then VSIM_RACE_BIN="$BIN.race"; export VSIM_RACE_BIN; fi
